@@ -1,0 +1,8 @@
+//go:build verif
+
+package header
+
+import "time"
+
+// VerifClockDrift exposes the clock drift allowance used by Verify (read-only, verif builds only).
+func VerifClockDrift() time.Duration { return clockDrift }
